@@ -103,6 +103,8 @@ END;
 	{"px-phylogeny-without-clade-first", "phyloxml", `<phyloxml><phylogeny rooted="true"><name>only a name</name><description>no clade</description></phylogeny><phylogeny rooted="true"><clade><clade><name>a</name></clade><clade><name>b</name></clade></clade></phylogeny></phyloxml>`},
 	{"px-phylogeny-without-clade-only", "phyloxml", `<phyloxml><phylogeny rooted="false"><name>n</name></phylogeny></phyloxml>`},
 	{"px-unrooted-two-children", "phyloxml", `<phyloxml><phylogeny rooted="false"><clade><clade><branch_length>1</branch_length><clade><name>a</name><branch_length>1</branch_length></clade><clade><name>b</name><branch_length>2</branch_length></clade></clade><clade><branch_length>3</branch_length><clade><name>c</name><branch_length>1</branch_length></clade><clade><name>d</name><branch_length>1</branch_length></clade></clade></clade></phylogeny></phyloxml>`},
+	{"px-branch-length-attribute", "phyloxml", `<phyloxml><phylogeny rooted="true"><clade branch_length="0.5"><clade branch_length="1.5"><name>a</name></clade><clade branch_length=""><name>b</name></clade><clade branch_length="2"><branch_length>3</branch_length><name>c</name></clade><clade branch_length="x"><name>d</name></clade></clade></phylogeny></phyloxml>`},
+	{"px-odd-attributes", "phyloxml", `<phyloxml><phylogeny rooted="true" branch_length_unit="1" rerootable="no"><clade id_source="r" collapse="true"><clade branch_length="1e-3" id_source="x"><name>a</name><width>2</width><color><red>1</red><green>2</green><blue>3</blue></color></clade><clade><name>b</name><confidence type="p">0.1</confidence><confidence type="bootstrap">90</confidence><events><duplications>1</duplications></events></clade></clade></phylogeny></phyloxml>`},
 	{"px-empty", "phyloxml", `<phyloxml></phyloxml>`},
 	{"px-noname-tip", "phyloxml", `<phyloxml><phylogeny rooted="true"><clade><clade></clade><clade><name>b</name></clade></clade></phylogeny></phyloxml>`},
 	{"px-root-length-confidence", "phyloxml", `<phyloxml><phylogeny rooted="true"><clade><name>root</name><branch_length>0.5</branch_length><confidence type="bootstrap">0.9</confidence><clade><name>a</name><branch_length>1</branch_length><confidence type="x">0.1</confidence></clade><clade><branch_length>2</branch_length><confidence type="bootstrap">0.7</confidence><clade><name>b</name></clade><clade><name>c</name></clade></clade></clade></phylogeny></phyloxml>`},
@@ -119,6 +121,8 @@ END;
 	{"ns-leaf-root", "nextstrain", `{"version":"v2","tree":{"name":"only"}}`},
 	{"ns-notree", "nextstrain", `{"version":"v2"}`},
 	{"ns-nulls", "nextstrain", `{"version":"v2","tree":{"name":"r","node_attrs":null,"branch_attrs":null,"children":[{"name":"a","children":null},null,{"name":null,"children":[null]}]}}`},
+	{"ns-date-confidence-shapes", "nextstrain", `{"version":"v2","tree":{"name":"r","node_attrs":{"div":0,"num_date":{"value":2019.5,"confidence":[2019.4]}},"children":[{"name":"a","node_attrs":{"div":1,"num_date":{"value":2020.5,"confidence":[]}}},{"name":"b","node_attrs":{"div":2,"num_date":{"value":2020.25,"confidence":[2020.1,2020.3,2020.4]}}},{"name":"c","node_attrs":{"div":1,"num_date":{"value":2021,"confidence":null}}},{"name":"d","node_attrs":{"div":1,"num_date":{"confidence":[2020.1]}}}]}}`},
+	{"ns-one-element-arrays", "nextstrain", `{"version":"v2","tree":{"name":"r","node_attrs":{"div":0},"branch_attrs":{"mutations":{"nuc":[],"S":["D614G"]},"labels":{"aa":"","clade":"19A"}},"children":[{"name":"a","node_attrs":{"div":1,"country":{"value":"x","confidence":{"x":1}},"num_date":{"value":2020.5,"confidence":[2020.4]}},"branch_attrs":{"mutations":{}}}]}}`},
 	{"ns-tree-null", "nextstrain", `{"version":"v2","tree":null}`},
 	{"ns-wrong-types", "nextstrain", `{"version":"v2","tree":{"name":"r","children":[{"name":"a","node_attrs":{"div":"x"}},{"name":"b","node_attrs":{"div":1e999}}]}}`},
 	{"ns-deeper", "nextstrain", `{"version":"v2","tree":{"name":"r","node_attrs":{"div":0.5,"num_date":{"value":2019.5}},"branch_attrs":{"labels":{"aa":"x"}},"children":[{"name":"i","node_attrs":{"div":1},"children":[{"name":"i2","children":[{"name":"a","node_attrs":{"div":3,"region":{"value":"eu","entropy":0.1,"confidence":{"eu":0.9}}}},{"name":"b"}]},{"name":"c","node_attrs":{"div":0.25},"children":[]}]},{"name":"d","node_attrs":{"div":null}}]}}`},
